@@ -1526,6 +1526,307 @@ def s_intmatch(g, sc, out, ctx):
         out.append(g.show(*es, tag='im'))
 
 
+# ----------------------------------------------------------------------------------------------- aggregates in arrays
+T_AGK = ('Class', 'AgK')           # class AgK { v: Int64 }  (declared on first use)
+T_OPTK = ('Option', T_AGK)
+# element layouts: sizes 2,3,5/8,8,12,12/16,16,20,24 ... (the byte size of an array is length * element size rounded up to
+# a word: element sizes that are not 1/2/4/8 take the multiply path of the code generators, and odd lengths of elements
+# whose size is not a multiple of 8 need the rounding)
+AGG_LAYOUTS = [
+    [T_I32, T_I32, T_I32], [T_I32, T_I32, T_I32], [T_U8, T_I32], [T_I64, T_I32], [T_U8, T_U8, T_U8], [T_I32, T_BOOL],
+    [T_U8, T_I64], [T_I32, T_I32, T_I32, T_I32, T_I32], [T_BOOL, T_U8], [T_CHAR, T_U8], [T_I64, T_I64, T_I32],
+    [T_U8, T_I32, T_U8], [T_I32, T_I64, T_U8], [T_U8, T_U8, T_U8, T_U8, T_U8], [T_CHAR, T_CHAR, T_CHAR], [T_I32, T_U8, T_U8],
+    [T_I32, T_STR], [T_U8, T_AGK], [T_OPTK, T_I32], [T_STR, T_U8, T_U8], [T_I32, T_I32, T_AGK], [T_I32, T_OPTK, T_I32]]
+AGG_LENS = [0, 1, 2, 3, 5, 7, 8, 9, 15, 16, 17, 1, 3, 5, 7]
+AGG_TAG = {T_I32: 'i32', T_I64: 'i64', T_U8: 'u8', T_BOOL: 'b', T_CHAR: 'c', T_STR: 'str', T_AGK: 'cls', T_OPTK: 'optcls'}
+
+
+def agg_need_class(g):
+    if not getattr(g, 'agk', False):
+        g.agk = True
+        g.decls.append(dict(k='class', name='AgK', fields=[('v', T_I64)]))
+
+
+def new_agk(v):
+    return N('new', 'AgK', [('v', v)], ty=T_AGK)
+
+
+def agg_field_lit(t, i, j, salt):
+    """field j of element number i as a literal: every element differs from every other one in every field that can
+    differ, all bytes of the wide ones are non-zero"""
+    odd = (i + j) % 2 == 1
+    if t == T_I32:
+        v = (i + 1) * 16843009 + j * 4099 + salt
+        return lit(T_I32, -v - 1 if odd else v)
+    if t == T_I64:
+        v = (i + 1) * 72340172838076673 + j * 65537 + salt
+        return lit(T_I64, -v - 1 if odd else v)
+    if t == T_U8:
+        return lit(T_U8, (i * 37 + j * 11 + salt + 128) % 256)
+    if t == T_BOOL:
+        return lit(T_BOOL, (i + j + salt) % 2 == 0)
+    if t == T_CHAR:
+        return lit(T_CHAR, CHARS[(i + j + salt) % len(CHARS)])
+    if t == T_STR:
+        return lit(T_STR, 's%d_%d' % (i, (j + salt) % 10))
+    if t == T_AGK:
+        return new_agk(lit(T_I64, 1000 * (i + 1) + j + salt))
+    if t == T_OPTK:
+        if (i + salt) % 3 == 0:
+            return N('variant', 'Option', 'None', ty=T_OPTK)
+        return N('variant', 'Option', 'Some', new_agk(lit(T_I64, -(1000 * (i + 1) + j + salt))), ty=T_OPTK)
+    raise ValueError(t)
+
+
+def agg_field_k(t, k, j, salt):
+    """field j of the element with index `k` (an Int64 variable in 0..17), computed"""
+    kv = var(k, T_I64)
+    if t == T_I32:
+        return binop('add', binop('mul', meth('to_int32', kv, ty=T_I32), lit(T_I32, 16843009), ty=T_I32),
+                     lit(T_I32, 16843009 + j * 4099 + salt), ty=T_I32)
+    if t == T_I64:
+        return binop('sub', lit(T_I64, -(j * 65537 + salt) - 1), binop('mul', kv, lit(T_I64, 72340172838076673), ty=T_I64),
+                     ty=T_I64)
+    if t == T_U8:
+        return meth('to_uint8', binop('add', binop('mul', kv, lit(T_I64, 37), ty=T_I64), lit(T_I64, j * 11 + salt + 128),
+                                      ty=T_I64), ty=T_U8)
+    if t == T_BOOL:
+        return binop('eq', binop('mod', binop('add', kv, lit(T_I64, j + salt), ty=T_I64), lit(T_I64, 2), ty=T_I64),
+                     lit(T_I64, 0), ty=T_BOOL)
+    if t == T_CHAR:
+        return meth('to_char', meth('to_uint8', binop('add', kv, lit(T_I64, 65 + j + salt % 5), ty=T_I64), ty=T_U8), ty=T_CHAR)
+    if t == T_STR:
+        return template('s', kv, '_%d' % ((j + salt) % 10))
+    if t == T_AGK:
+        return new_agk(binop('add', binop('mul', kv, lit(T_I64, 1000), ty=T_I64), lit(T_I64, 1000 + j + salt), ty=T_I64))
+    if t == T_OPTK:
+        return N('if', binop('eq', binop('mod', binop('add', kv, lit(T_I64, salt), ty=T_I64), lit(T_I64, 3), ty=T_I64),
+                             lit(T_I64, 0), ty=T_BOOL),
+                 N('variant', 'Option', 'None', ty=T_OPTK),
+                 N('variant', 'Option', 'Some', new_agk(unop('neg', binop('add', kv, lit(T_I64, 1000 + j), ty=T_I64), ty=T_I64)),
+                   ty=T_OPTK), ty=T_OPTK)
+    raise ValueError(t)
+
+
+class Agg:
+    """an aggregate element type: a tuple or a (freshly declared) struct over a field layout"""
+
+    def __init__(self, g, layout, as_struct, name=None):
+        self.g = g
+        self.layout = list(layout)
+        self.as_struct = as_struct
+        if T_AGK in layout or T_OPTK in layout:
+            agg_need_class(g)
+        if as_struct:
+            self.name = name or g.fresh('Ag')
+            self.fields = [('q%d' % j, t) for j, t in enumerate(layout)]
+            g.decls.append(dict(k='struct', name=self.name, fields=self.fields))
+            self.ty = t_struct(self.name)
+        else:
+            self.ty = t_tuple(*layout)
+
+    def make(self, fs):
+        if self.as_struct:
+            return N('new', self.name, [(f, e) for (f, _), e in zip(self.fields, fs)], ty=self.ty)
+        return N('tuple', *fs, ty=self.ty)
+
+    def lit(self, i, salt=0):
+        return self.make([agg_field_lit(t, i, j, salt) for j, t in enumerate(self.layout)])
+
+    def of_k(self, k, salt=0):
+        return self.make([agg_field_k(t, k, j, salt) for j, t in enumerate(self.layout)])
+
+    def acc(self, e, j):
+        """component j of the aggregate expression e"""
+        if self.as_struct:
+            return N('field', e, self.fields[j][0], ty=self.layout[j])
+        return N('tget', e, j, ty=self.layout[j])
+
+    def shown(self, e):
+        """printable expressions showing every component of e (e is evaluated once per component)"""
+        es = []
+        for j, t in enumerate(self.layout):
+            a = self.acc(e(), j)
+            if t == T_AGK:
+                a = N('field', a, 'v', ty=T_I64)
+            elif t == T_OPTK:
+                x = self.g.fresh('b')
+                a = N('match', a, [(('pvariant', 'Option', 'Some', ('pvar', x)), N('field', var(x, T_AGK), 'v', ty=T_I64)),
+                                   (('pvariant', 'Option', 'None'), lit(T_I64, 1))], ty=T_I64)
+            es.append(a)
+        return es
+
+    def tag(self):
+        return ','.join(AGG_TAG[t] for t in self.layout)
+
+
+def alloc_neighbours(g, out, how_many=None):
+    """objects allocated right behind whatever was allocated last: a string, an Int64 array of all-ones words, a class
+    instance, a byte array.  Returns (statements that write to them, expressions that show them)."""
+    r = g.r
+    kinds = ['str', 'arr', 'obj', 'bytes']
+    r.shuffle(kinds)
+    kinds = kinds[:how_many or r.randint(2, 3)]
+    writes, shows = [], []
+    for kd in kinds:
+        nm = g.fresh('nb')
+        if kd == 'str':
+            out.append(let(nm, T_STR, template('nb', lit(T_I64, r.randint(0, 99)), r.choice(TEXTS))))
+            shows.append(var(nm, T_STR))
+        elif kd == 'arr':
+            ty = t_array(T_I64)
+            ln = r.choice([1, 2, 3])
+            out.append(let(nm, ty, scall(ty, 'fill', lit(T_I64, ln), lit(T_I64, -1), ty=ty)))
+            writes.append(assign(N('index', var(nm, ty), lit(T_I64, 0), ty=T_I64), lit(T_I64, r.choice([INT_RANGE[T_I64][0], -2, 72340172838076673]))))
+            shows += [N('index', var(nm, ty), lit(T_I64, k), ty=T_I64) for k in sorted({0, ln - 1})]
+            shows.append(meth('size', var(nm, ty), ty=T_I64))
+        elif kd == 'obj':
+            agg_need_class(g)
+            out.append(let(nm, T_AGK, new_agk(lit(T_I64, -1))))
+            writes.append(assign(N('field', var(nm, T_AGK), 'v', ty=T_I64), lit(T_I64, r.choice([INT_RANGE[T_I64][1], -255, 4294967296]))))
+            shows.append(N('field', var(nm, T_AGK), 'v', ty=T_I64))
+        else:
+            ty = t_array(T_U8)
+            ln = r.choice([1, 3, 7, 8, 9])
+            out.append(let(nm, ty, scall(ty, 'fill', lit(T_I64, ln), lit(T_U8, 255), ty=ty)))
+            writes.append(assign(N('index', var(nm, ty), lit(T_I64, ln - 1), ty=T_U8), lit(T_U8, r.choice([0, 128, 254]))))
+            shows += [N('index', var(nm, ty), lit(T_I64, k), ty=T_U8) for k in sorted({0, ln - 1})]
+            shows.append(meth('size', var(nm, ty), ty=T_I64))
+    return writes, shows
+
+
+def s_aggarray(g, sc, out, ctx):
+    """Array / Vec whose element is a small tuple or struct (element sizes 2..24 bytes, with and without references):
+    every element including the last one is written with distinct values, other objects are allocated right behind it
+    and written, then everything is read back; replacement of elements, field-wise stores into an element, copying an
+    element out and changing the copy, Vec growth over its capacity steps, fill / fill_with / new / clone."""
+    r = g.r
+    layout = r.choice(AGG_LAYOUTS)
+    has_ref = any(t in (T_STR, T_AGK, T_OPTK) for t in layout)
+    ag = Agg(g, layout, as_struct=r.random() < 0.5)
+    ety = ag.ty
+    n = r.choice(AGG_LENS)
+    how = r.choice(['fill', 'fill', 'new', 'fill_with', 'vec-push', 'vec-push', 'vec-new'])
+    if how == 'new' and n > 9:
+        how = 'fill'
+    is_vec = how.startswith('vec')
+    cty = t_vec(ety) if is_vec else t_array(ety)
+    a = g.fresh('ga')
+    av = lambda: var(a, cty)
+    at = lambda i: N('index', av(), i if isinstance(i, N) else lit(T_I64, i), ty=ety)
+    salt = r.randint(0, 9)
+    g.feat('aggarray', 'agg-elem:' + ag.tag(), 'agg-' + how, 'agg-struct' if ag.as_struct else 'agg-tuple',
+           'agg-len:%d' % n)
+    if has_ref:
+        g.feat('agg-ref')
+    if n % 2 == 1:
+        g.feat('agg-odd-length')
+    g.boundary = True
+    k = g.fresh('k')
+    # --- create and fill
+    if how == 'fill':
+        out.append(let(a, cty, scall(cty, 'fill', lit(T_I64, n), ag.lit(99, salt), ty=cty)))
+        if n <= 3 or r.random() < 0.3:
+            for i in range(n):
+                out.append(assign(at(i), ag.lit(i, salt)))
+        else:
+            out.append(N('for', k, lit(T_I64, 0), lit(T_I64, n - 1), block(assign(at(var(k, T_I64)), ag.of_k(k, salt)))))
+            out.append(assign(at(n - 1), ag.lit(n - 1, salt)))
+    elif how == 'new':
+        out.append(let(a, cty, scall(cty, 'new', *[ag.lit(i, salt) for i in range(n)], ty=cty)))
+    elif how == 'fill_with':
+        fty = t_fn([T_I64], ety)
+        out.append(let(a, cty, scall(cty, 'fill_with', lit(T_I64, n),
+                                     N('lambda', [(k, T_I64)], ety, block(ag.of_k(k, salt)), ty=fty), ty=cty)))
+        g.feat('lambda')
+    else:
+        first = min(n, r.choice([0, 1, 3])) if how == 'vec-new' else 0
+        out.append(let(a, cty, scall(cty, 'new', *[ag.lit(i, salt) for i in range(first)], ty=cty)))
+        if n - first <= 3:
+            for i in range(first, n):
+                out.append(N('meth', 'push', av(), ag.lit(i, salt), ty=T_UNIT))
+        else:
+            out.append(N('for', k, lit(T_I64, first), lit(T_I64, n), block(N('meth', 'push', av(), ag.of_k(k, salt), ty=T_UNIT))))
+        g.feat('vec')
+    # --- neighbours allocated right behind it, then written
+    writes, shows = alloc_neighbours(g, out)
+    out += writes
+
+    def show_elem(i, tag):
+        out.append(g.show(*ag.shown(lambda: at(i)), tag=tag))
+    # --- read everything back
+    k2 = g.fresh('k')
+    out.append(N('for', k2, lit(T_I64, 0), meth('size', av(), ty=T_I64),
+                 block(print_(g.tmpl(ag.shown(lambda: at(var(k2, T_I64))), sep=',')), print_(template(';')))))
+    out.append(g.show(meth('size', av(), ty=T_I64), tag='n'))
+    if n > 0:
+        show_elem(n - 1, 'last')
+        if n > 1:
+            show_elem(r.choice([0, n - 2]), 'el')
+    out.append(g.show(*shows, tag='nb'))
+    g.feat('for')
+    if n > 0:
+        # --- replace elements (whole and, for structs and tuples alike, component-wise), neighbours must survive
+        i = r.choice([n - 1, n - 1, r.randrange(n)])
+        out.append(assign(at(i), ag.lit(i + 20, salt + 1)))
+        j = r.randrange(len(layout))
+        if ag.as_struct and r.random() < 0.7:
+            out.append(assign(ag.acc(at(n - 1), j), agg_field_lit(layout[j], 40, j, salt)))
+            g.feat('agg-field-store')
+        show_elem(i, 'rep')
+        show_elem(n - 1, 'last')
+        if n > 1:
+            show_elem((i + 1) % n, 'el')
+        out.append(g.show(*shows, tag='nb'))
+        # --- value semantics: a copy taken out of the array is independent of the element
+        e = g.fresh('ge')
+        i = r.randrange(n)
+        out.append(let(e, ety, at(i), mut=True))
+        j = r.randrange(len(layout))
+        out.append(assign(ag.acc(var(e, ety), j), agg_field_lit(layout[j], 50, j, salt)))
+        out.append(g.show(*(ag.shown(lambda: var(e, ety)) + ag.shown(lambda: at(i))), tag='cp'))
+        if r.random() < 0.5:
+            out.append(assign(at(n - 1), var(e, ety)))
+            show_elem(n - 1, 'wb')
+        g.feat('agg-copy-out')
+    if is_vec:
+        # growth over the next capacity step (4, 8, 16, 32) with the old elements surviving the move
+        extra = r.choice([1, 2, 4, 5]) if n < 9 else r.choice([1, 2, 16])
+        k3 = g.fresh('k')
+        out.append(N('for', k3, lit(T_I64, n), lit(T_I64, n + extra), block(N('meth', 'push', av(), ag.of_k(k3, salt + 2), ty=T_UNIT))))
+        writes2, shows2 = alloc_neighbours(g, out, 1)
+        out += writes2
+        show_elem(n + extra - 1, 'grown')
+        show_elem(0, 'el')
+        if n > 0:
+            show_elem(n - 1, 'el')
+        x = g.fresh('b')
+        out.append(N('match', meth('pop', av(), ty=t_option(ety)),
+                     [(('pvariant', 'Option', 'Some', ('pvar', x)), block(g.show(*ag.shown(lambda: var(x, ety)), tag='pop'))),
+                      (('pvariant', 'Option', 'None'), block(println(template('empty'))))]))
+        out.append(g.show(meth('size', av(), ty=T_I64), *shows2, tag='n'))
+        g.feat('agg-vec-growth', 'option', 'match')
+        if r.random() < 0.4 and n + extra >= 2:
+            b = g.fresh('ga')
+            bty = t_array(ety)
+            out.append(let(b, bty, meth('to_array', av(), ty=bty)))
+            out.append(g.show(meth('size', var(b, bty), ty=T_I64),
+                              *ag.shown(lambda: N('index', var(b, bty), lit(T_I64, n + extra - 2), ty=ety)), tag='toarr'))
+            g.feat('agg-to-array')
+    elif r.random() < 0.4:
+        # clone: a second array of the same byte size; changing the clone leaves the original alone
+        b = g.fresh('ga')
+        out.append(let(b, cty, meth('clone', av(), ty=cty)))
+        writes2, shows2 = alloc_neighbours(g, out, 1)
+        out += writes2
+        if n > 0:
+            out.append(assign(N('index', var(b, cty), lit(T_I64, n - 1), ty=ety), ag.lit(60, salt)))
+            out.append(g.show(*(ag.shown(lambda: N('index', var(b, cty), lit(T_I64, n - 1), ty=ety)) + ag.shown(lambda: at(n - 1))),
+                              tag='clone'))
+        out.append(g.show(meth('size', var(b, cty), ty=T_I64), *shows2, tag='n'))
+        g.feat('agg-clone')
+
+
 def s_option(g, sc, out, ctx):
     r = g.r
     t = r.choice([T_I32, T_I64, T_BOOL, T_CHAR])
@@ -1792,7 +2093,7 @@ def s_return(g, sc, out, ctx):
 
 SCENARIOS = [(s_lets, 5), (s_print, 4), (s_assign, 3), (s_if, 3), (s_while, 2), (s_for, 2), (s_tuple, 2),
              (s_struct, 2), (s_class, 2), (s_enum, 2), (s_option, 2), (s_array, 2), (s_vec, 2), (s_lambda, 2),
-             (s_trait, 2), (s_calls, 3), (s_pressure, 1), (s_probe, 4), (s_global, 1), (s_intmatch, 2)]
+             (s_trait, 2), (s_calls, 3), (s_pressure, 1), (s_probe, 4), (s_global, 1), (s_intmatch, 2), (s_aggarray, 2)]
 SIMPLE = [s_lets, s_print, s_assign, s_probe, s_calls, s_if]
 
 
